@@ -157,5 +157,40 @@ struct Sender {
   }
 };
 
+/** monitor of an answer given in answer mode, written from the statement of C15: acknowledge a CRC-correct telegram that
+ * matches a registered answer, then (slave destination) send length, escaped data and CRC, repeat once on NAK. The
+ * recogniser tracks the wire; this overlay adds that this side is the addressed participant. */
+struct Answerer {
+  Parser p;
+  bool ans;              // answering the telegram the recogniser is in
+  uint8_t A[REF_MAXL];   // the registered answer: A[0] = NN, then the data bytes
+  bool done, ok;         // outcome of the last event: the answer exchange ended / ended completely
+  Answerer() : ans(false), done(false), ok(false) {}
+  bool expectWrite(uint8_t* w) const {
+    if (!ans) return false;
+    uint8_t u;
+    switch (p.ph) {
+      case Parser::CMDACK: *w = 0x00; return true;   // only CRC-correct telegrams are answered
+      case Parser::RNN: case Parser::RDATA: u = A[p.slen < REF_MAXL ? p.slen : 0]; break;
+      case Parser::RCRC: u = p.crc; break;
+      default: return false;
+    }
+    if (p.esc) *w = u == 0xA9 ? 0x00 : 0x01;
+    else if (u == 0xA9 || u == 0xAA) *w = 0xA9;
+    else *w = u;
+    return true;
+  }
+  void fault() { done = ans; ok = false; ans = false; p.fault(); }
+  void sym(bool wrote, uint8_t w, uint8_t raw) {
+    done = ok = false;
+    if (!ans) { p.sym(raw); return; }
+    if (raw == 0xAA) { p.sym(raw); ans = false; done = true; return; }
+    if (wrote && raw != w) { p.reported = false; p.drop(); ans = false; done = true; return; }   // echo mismatch: silent until SYN
+    p.sym(raw);
+    if (p.reported) { ans = false; done = true; ok = true; return; }
+    if (p.ph == Parser::IDLE) { ans = false; done = true; }
+  }
+};
+
 }  // namespace ref
 #endif
